@@ -61,6 +61,9 @@ func urlFor(variant, pos int) string {
 const (
 	comment1 = "# GET http://evil.test/"
 	comment2 = "#X-A: 9"
+	// indented comment: lines are trimmed before they are interpreted (the
+	// repository's own TestNewHTTPTargeter writes its comments tab-indented)
+	comment3 = " \t# PUT http://evil.test/indented"
 )
 
 // body files in the sandbox: index 0 = no body.
@@ -224,6 +227,8 @@ func commentLines(n, salt int) []line {
 		return []line{{'C', comment2}}
 	case 2:
 		return []line{{'C', comment1}, {'C', comment2}}
+	case 3: // one indented comment
+		return []line{{'C', comment3}}
 	}
 	return nil
 }
@@ -384,8 +389,8 @@ func refHTTP(text string) ([]own, error) {
 	}
 	var ls []string
 	for _, l := range raw {
-		if strings.HasPrefix(l, "#") {
-			continue // ignored
+		if strings.HasPrefix(strings.TrimSpace(l), "#") {
+			continue // ignored (also when indented: lines are trimmed before they are interpreted)
 		}
 		ls = append(ls, strings.TrimSpace(l))
 	}
@@ -1003,7 +1008,7 @@ func TestC14(t *testing.T) {
 		n := ts.nlines()
 		dims := make([]int, n)
 		for i := range dims {
-			dims[i] = 3
+			dims[i] = 4 // 0, 1 or 2 comment lines, or one indented comment
 		}
 		ev.Product(dims, func(g []int) {
 			ts.gaps = g
@@ -1125,7 +1130,7 @@ func TestC14(t *testing.T) {
 	}
 	var pool []tspec
 	for bi, b := range base {
-		for gv := 0; gv < ev.Pick(2, 3); gv++ {
+		for _, gv := range ev.Pick([]int{0, 1, 3}, []int{0, 1, 2, 3}) {
 			s := b
 			s.m, s.uv = (bi+gv)%ev.Pick(2, 4), bi
 			s.gaps = make([]int, s.nlines())
